@@ -29,19 +29,30 @@ pub struct GrepLine<'b> {
 
 impl GrepLine<'_> {
     fn expand_tabs(&mut self, tab_cfg: &tabs::TabCfg) {
-        let old_len = self.code.len();
-        self.code = tabs::expand(&self.code, tab_cfg).into();
-        let shift = self.code.len().saturating_sub(old_len);
-        // HACK: it is not necessarily the case that all submatch coordinates
-        // should be shifted in this way. It should be true in a common case of:
-        // (a) the only tabs were at the beginning of the line, and (b) the user
-        // was not searching for tabs.
+        if !tab_cfg.replace() {
+            return;
+        }
+        // Each tab preceding a byte offset is replaced by `width` bytes, so the offset moves
+        // right by `width - 1` for every such tab.
+        let extra_per_tab = tab_cfg.width() - 1;
+        let tab_positions: Vec<usize> = self
+            .code
+            .bytes()
+            .enumerate()
+            .filter(|(_, b)| *b == b'\t')
+            .map(|(i, _)| i)
+            .collect();
+        let shift = |pos: usize| -> usize {
+            let n_tabs_before = tab_positions.partition_point(|tab| *tab < pos);
+            pos.saturating_add(n_tabs_before * extra_per_tab)
+        };
         self.submatches = self.submatches.as_ref().map(|submatches| {
             submatches
                 .iter()
-                .map(|(a, b)| (a + shift, b + shift))
+                .map(|(a, b)| (shift(*a), shift(*b)))
                 .collect()
         });
+        self.code = tabs::expand(&self.code, tab_cfg).into();
     }
 }
 
